@@ -255,9 +255,11 @@ impl<'a> KindCheck<'a> {
                 let arg_kind = self.kindcheck(arg);
                 let ret_kind = self.kindcheck(ret);
 
+                // Report a mismatch at the offending side: the function type itself has no
+                // position when it was synthesized for a variant constructor
                 let type_kind = self.type_kind();
-                self.unify(span, &type_kind, arg_kind);
-                self.unify(span, &type_kind, ret_kind);
+                self.unify(arg.span(), &type_kind, arg_kind);
+                self.unify(ret.span(), &type_kind, ret_kind);
 
                 type_kind
             }
